@@ -49,17 +49,56 @@
                                 the mass of "local mechanism" events (so the world only matters through what it forces); the
                                 districts of the counterfactual graph share no noise (c-component factorisation, line 6);
                                 line 9 and the outer Sum are marginalisations; induction over the recursion.
+    * `idstar_sound_oneworld_conflating`   EVERY SINGLE-WORLD EVENT (`OneWorld`: all keys carry one subscript set; values and
+                                subscripts of ANY polarity): the estimand equals P(event) under the CONFLATING reading `cden`, in which
+                                an unstarred subscript `-X` denotes the value the event gives `X`.  So on single-world events the
+                                only thing wrong with ID*'s answers is the polarity of the subscripts line 6 writes (F10/M1, F10/M2).
+    * `idstar_sound_fragment2`  SOUNDNESS ON FRAGMENT 2 (`InFragment2`, decidable by `inFragment2B`; contains fragment 1:
+                                `inFragment_subset`), UNDER THE READING OF THE PROPERTY (`cden2`, Lemmas/CfStarLit.lean: outcome
+                                variables take the event's values, `-X` is the literal `x` unless an enclosing `Sum` binds `X`, `+X`
+                                is the literal `x'`): single-world events of any polarity such that, when line 6 fires, no key with
+                                a starred value is a parent (in `G`) of a non-self-intervened node of the counterfactual graph and no
+                                node of the graph is self-intervened on a starred subscript (`Clean2`).  Measured boundary
+                                (tools/c07_boundary.py, 39 906 in-domain events): on single-world events the real code fails exactly
+                                when one of these two conditions fails (F10/M1 resp. F10/M2) — outside `Clean2` 87% of the events fail.
+    * `idstar_sound_fragment2R` … and on FRAGMENT 2R (`InFragment2R`, decidable by `inFragment2RB`): events with ANY number of worlds
+                                that violate effectiveness, consist of tautologies, or are reduced to fragment 2 by line 3.
+    * `idstar_sound_fragment3`  … and on FRAGMENT 3 (`InFragment3`, decidable by `inFragment3B`): events that are STILL MULTI-WORLD after line 3
+                                and whose counterfactual graph has at most one non-self-intervened node per variable, no
+                                non-self-intervened node named like a subscript, consistent subscripts, represented bidirected edges, and
+                                keeps the polarities (`Frag3At`, Lemmas/CfMwC.lean).  Proof (Lemmas/CfMwA–D): the invariants of C18's
+                                merge loop read off for the model at hand (every parent of a node is represented by a parent node of
+                                equal value wherever the earlier conjuncts hold), `mw_local` (the joint event of the nodes, each in
+                                its own world, is the joint local-mechanism event — induction along the processing order),
+                                `mw_marginal`, the c-component factorisation, and the single-world theorem for the recursive calls.
+                                Measured: 87.5% of 39 906 generated events lie in fragments 1–3 (none answered wrongly); outside them
+                                86% of the single-world events and 88% of the multi-world events that get an estimand are answered
+                                wrongly: the proved boundary is the measured one.
+    * `idstar_answers_oneworld` on a single-world event ID* never refuses
+    * `idstar_zero_iff_line2_oneworld`, `idstar_zero_sound_oneworld`, `idstar_never_zero_fragment`
+                                ZERO on single-world events (fragments 1, 2 included): ID* returns Zero IFF the event violates the
+                                axiom of effectiveness (line 2) — then P(event) = 0 in every functional SCM; no other line returns Zero,
+                                no recursive call returns Zero; inside fragment 1 Zero is never returned.
+    * `idstar_zero_origin`, `idstar_zero_sound_partial`
+                                ZERO on EVERY well-formed event: it comes from line 2, from line 5, or from line 6 with a district event
+                                that violates effectiveness (line 2 of a recursive call, depth one); the first two are sound, so Zero is
+                                sound unless it is of the third kind (that is where the open findings of kind 'zero' live).
+    * `idstar_refusal_iff_conflict`, `idstar_refuses_sound`
+                                REFUSALS on every well-formed event (acyclic graph): ID* refuses IFF after lines 1–3 the counterfactual
+                                graph is connected and line 8's conflict test fires; the recursive calls of line 6 never refuse.
     * vocabulary (C06 part): Props/C06Cf.lean
 
-  -- OPEN (stated in full, NOT proved; on the current tree the first one is FALSE outside the fragment — F10, see known_findings.jsonl):
+  -- OPEN (stated in full, NOT proved; on the current tree the first one is FALSE outside fragments 1–3 — F10, see known_findings.jsonl):
   --   theorem idstar_sound : idStar ordf dordf G ev = .ok e → e ≠ .zero → M.Compatible G → EventWF M ev → ν.Distinct →
-  --       den M ν ev e = probEvent M ν ev
-  --     (`den` = the reading of the property: a free outcome variable `V` of a leaf takes the event's value of `V`, a subscript
-  --      `+X` is `ν X true`, a subscript `-X` is the value bound by an enclosing `Sum[X]`, else `ν X false`)
+  --       cden2 M ν dom e (values of the event) (fun n => ν n false) = probEvent M ν ev
+  --     proved on fragments 1, 2, 2R, 3.  FALSE of the code: (a) single-world events outside `Clean2` (F10/M1, M2: the estimand is
+  --     right only under the conflating reading, `idstar_sound_oneworld_conflating`); (b) events that are still multi-world after
+  --     line 3 and violate `Frag3At` (F10/M3a, M3b, D1, D2 and M1/M2 again): 5–6% of the stream, 88% of them wrong
   --   theorem idstar_zero_sound : idStar ordf dordf G ev = .ok .zero → M.Compatible G → EventWF M ev → ν.Distinct →
   --       probEvent M ν ev = 0
-  --     proved for Zero coming from line 2 (`idstar_zero_line2_sound_partial`) and from line 5 (`idstar_zero_line5_sound`, by
-  --     C18's `cg_prob`); Zero from a factor of line 6 is open (and false today: F10/M5)
+  --     proved for single-world events (`idstar_zero_sound_oneworld`) and, for every event, for Zero from lines 2 and 5
+  --     (`idstar_zero_sound_partial`); Zero from line 2 of a recursive call on a district event (multi-world top events only) is
+  --     open and false today (F10: keys ["zero", "line6", …])
 -/
 import Y0.Model.IdStar
 import Y0.Lemmas.CfFscm
@@ -67,6 +106,8 @@ import Y0.Lemmas.CfIdStar
 import Y0.Lemmas.CfNsi
 import Y0.Lemmas.CfTermC
 import Y0.Lemmas.CfFragC
+import Y0.Lemmas.CfStarZero
+import Y0.Lemmas.CfMwD
 import Mathlib.Tactic.NormNum
 import Mathlib.Algebra.Order.Field.Rat
 
@@ -277,15 +318,7 @@ the interventional queries `P(y_x)` (`x`, `y` the unstarred values), conjunction
 (a starred symbol turned into an unstarred subscript, two copies of one variable) can occur inside it. -/
 def InFragment (G : MG Name) (ev : Event) : Prop := ∃ w, Frag G w ev
 
-/-- the fragment is decidable: an executable test -/
-def inFragmentB (G : MG Name) (ev : Event) : Bool :=
-  match ev with
-  | [] => true
-  | p :: _ =>
-    decide (ev.keys.Nodup) &&
-    ev.all (fun q => decide (q.2 = ⟨q.1.name, false⟩) && decide (q.1.star = none) && !q.1.isIv &&
-      decide (q.1.name ∈ G.nodes) && decide (q.1.ivs = p.1.ivs)) &&
-    p.1.ivs.all (fun i => !i.star)
+/- the fragment is decidable: the executable test `inFragmentB` (Y0/Model/IdStar.lean) -/
 
 theorem inFragmentB_sound (ev : Event) (h : inFragmentB G ev = true) : InFragment G ev := by
   cases ev with
@@ -357,6 +390,534 @@ theorem permDistrict_orderDistrict (rev : Bool) : PermDistrict (orderDistrict re
   · exact (List.reverse_perm _).trans (perm_sortBy' _ _)
   · exact perm_sortBy' _ _
 
+/-! ## 3d. single-world events of ANY polarity: fragment 2, Zero, refusals -/
+
+/-- **single-world events**: a well-formed event over variables of `G` all of whose keys carry ONE subscript set (possibly empty);
+values and subscripts of any polarity.  (`starOf ev V`: the polarity of the value the event gives `V`.) -/
+def OneWorld (G : MG Name) (ev : Event) : Prop := Frag2 G (worldB ev) (starOf ev) ev
+
+/-- **Fragment 2** `InFragment2 ordf G ev`: a single-world event (ANY polarity of values and subscripts) that either violates
+effectiveness (line 2 answers Zero) or is such that, if line 6 fires on the event without its tautologies (the counterfactual
+graph has several districts), then
+  * no key with a STARRED value is a parent (in `G`) of a non-self-intervened node of the counterfactual graph, and
+  * no node of the counterfactual graph is self-intervened on a STARRED subscript
+(`Clean2`, Lemmas/CfStarTop.lean).  These are exactly the situations in which line 6 would turn a starred symbol into an unstarred
+subscript (F10/M1, F10/M2).  Decidable: `inFragment2B`.  Fragment 1 is contained in it (`inFragment_subset`). -/
+def InFragment2 (ordf : List World → List World) (G : MG Name) (ev : Event) : Prop :=
+  OneWorld G ev ∧
+    (violatesEffectiveness ev = true ∨ Clean2 ordf G (worldB ev) (starOf ev) (removeTautologies ev))
+
+theorem idStarFuelBound_ge (ev : Event) : ∃ b, idStarFuelBound G ev = b + 2 := ⟨2 * G.nodes.length + ev.length + 2, rfl⟩
+
+/-- **ID\* is sound on EVERY single-world event under the conflating reading `cden`**, in which an unstarred subscript `-X` denotes
+the current value of `X` — the value the event gives `X` (`evVal`: `x'` for a starred-valued key or a variable with a starred
+subscript), or the value bound by an enclosing `Sum`.  So on single-world events the only thing wrong with ID*'s estimands is the
+polarity of the subscripts line 6 writes (F10/M1, F10/M2): read with the polarities restored, they are P(event). -/
+theorem idstar_sound_oneworld_conflating (M : Model) (ν : BaseValues) (dom : Name → Nat) (hM : Compatible M G)
+    (hnorm : M.Normalised) (hdom : ∀ v ps us, M.f v ps us < dom v) (hG : G.WF) (hdl : ∀ e ∈ G.di, e.1 ≠ e.2)
+    (hbl : ∀ e ∈ G.bi, e.1 ≠ e.2) {ordf : List World → List World} (hord : PermOrder ordf) {dordf : List Var → List Var}
+    (hdo : PermDistrict dordf) (ev : Event) (hne : ev ≠ []) (hfr : OneWorld G ev) (hviol : violatesEffectiveness ev = false)
+    (e : Expr) (h : idStar ordf dordf G ev = .ok e) :
+    cden M ν dom e (evVal ν (starOf ev) (worldB ev)) = probEvent M ν ev := by
+  have hwc := frag2_consistent hfr hne
+  have hsk := sKeys_starOf ev
+  obtain ⟨_, hst, hkv⟩ := evVal_facts ν hfr hsk hviol hwc
+  have hA := idStarFuel_sound_sw M ν dom hM (fun pmf hp => (hnorm pmf hp).2) hdom hG hdl hbl hord hdo _ _ _ ev e hfr hsk hviol h
+    (evVal ν (starOf ev) (worldB ev)) (fun k hk hs => by rw [hkv k hk, hs]) hst
+  rw [probEvent_evVal M ν hfr hsk hviol hwc] at hA
+  exact hA
+
+/-- **ID\* is sound on fragment 2, under the reading of the property** (`cden2`, Lemmas/CfStarLit.lean): outcome variables take
+the values the event gives them (`evVal`), an unstarred subscript `-X` is the literal `x` unless an enclosing `Sum` binds `X`, a
+starred subscript `+X` is the literal `x'`.  For every functional SCM compatible with the graph (normalised noise, bounded values),
+all base values with `x ≠ x'`, every iteration order. -/
+theorem idstar_sound_fragment2 (M : Model) (ν : BaseValues) (hν : ν.Distinct) (dom : Name → Nat) (hM : Compatible M G)
+    (hnorm : M.Normalised) (hdom : ∀ v ps us, M.f v ps us < dom v) (hG : G.WF) (hdl : ∀ e ∈ G.di, e.1 ≠ e.2)
+    (hbl : ∀ e ∈ G.bi, e.1 ≠ e.2) {ordf : List World → List World} (hord : PermOrder ordf) {dordf : List Var → List Var}
+    (hdo : PermDistrict dordf) (ev : Event) (hne : ev ≠ []) (hfr : InFragment2 ordf G ev) (e : Expr)
+    (h : idStar ordf dordf G ev = .ok e) :
+    cden2 M ν dom e (evVal ν (starOf ev) (worldB ev)) (fun n => ν n false) = probEvent M ν ev := by
+  obtain ⟨hone, hcl⟩ := hfr
+  cases hviol : violatesEffectiveness ev with
+  | true =>
+    obtain ⟨b, hb⟩ := idStarFuelBound_ge G ev
+    unfold idStar at h
+    rw [hb, idstar_line2 ordf dordf G (b + 1) ev hne hviol] at h
+    simp only [Except.ok.injEq] at h
+    subst h
+    rw [idstar_line2_sound M ν hν ev (frag2_eventWF M hM hone) hviol]
+    simp [cden2]
+  | false =>
+    rcases hcl with hcl | hcl
+    · rw [hcl] at hviol; cases hviol
+    · exact idStarFuel_sound_lit M ν dom hM (fun pmf hp => (hnorm pmf hp).2) hdom hG hdl hbl hord hdo _ _ ev hne hone
+        (sKeys_starOf ev) hviol hcl _ e h
+
+/-- the reading used by `idstar_sound_fragment2` gives every outcome variable of the event the event's own value, and every
+variable of the event's world the value the world sets it to -/
+theorem evVal_is_event_value (ν : BaseValues) (ev : Event) (hne : ev ≠ []) (hfr : OneWorld G ev)
+    (hviol : violatesEffectiveness ev = false) :
+    (∀ p ∈ ev, evVal ν (starOf ev) (worldB ev) p.1.name = ivValue ν p.2) ∧
+    (∀ i ∈ worldB ev, evVal ν (starOf ev) (worldB ev) i.name = ivValue ν i) := by
+  obtain ⟨hu, hst, hkv⟩ := evVal_facts ν hfr (sKeys_starOf ev) hviol (frag2_consistent hfr hne)
+  constructor
+  · intro p hp
+    rw [hkv p.1 ((mem_keys_iff ev p.1).2 ⟨p.2, hp⟩), hfr.vals p hp]
+    rfl
+  · intro i hi
+    unfold ivValue
+    cases hs : i.star with
+    | false => exact hu i hi hs
+    | true => exact hst i hi hs
+
+/-- **on a single-world event ID\* never refuses** (any polarity; acyclic graph): it returns an estimand, One or Zero -/
+theorem idstar_answers_oneworld (hG : G.WF) (hA : G.Acyclic) (hdl : ∀ e ∈ G.di, e.1 ≠ e.2) (hbl : ∀ e ∈ G.bi, e.1 ≠ e.2)
+    {ordf : List World → List World} (hord : PermOrder ordf) {dordf : List Var → List Var} (hdo : PermDistrict dordf)
+    (ev : Event) (hfr : OneWorld G ev) : ∃ e, idStar ordf dordf G ev = .ok e := by
+  rcases idstar_outcomes G hord hdo.subset hG hA hdl hbl ev hfr.good with h | h
+  · exact h
+  · exfalso
+    cases hviol : violatesEffectiveness ev with
+    | false => exact idStarFuel_not_unid_sw hG hdl hbl hord hdo _ _ _ ev hfr hviol h
+    | true =>
+      obtain ⟨b, hb⟩ := idStarFuelBound_ge G ev
+      unfold idStar at h
+      have hne : ev ≠ [] := by intro h0; rw [h0] at hviol; cases hviol
+      rw [hb, idstar_line2 ordf dordf G (b + 1) ev hne hviol] at h
+      cases h
+
+/-! ### the fragments are decidable -/
+
+theorem consistentB_sound (S : List Iv) (h : consistentB S = true) : ConsistentSubs S := by
+  unfold consistentB at h
+  simp only [List.all_eq_true, decide_eq_true_eq] at h
+  exact fun i hi j hj hij => h i hi j hj hij
+
+theorem oneWorldB_sound (ev : Event) (h : oneWorldB G ev = true) : OneWorld G ev := by
+  unfold oneWorldB at h
+  simp only [Bool.and_eq_true, decide_eq_true_eq, List.all_eq_true] at h
+  obtain ⟨⟨hnd, hall⟩, hcons⟩ := h
+  have hwc := consistentB_sound _ hcons
+  refine ⟨⟨⟨hnd, ?_⟩, ?_⟩, ?_, ?_⟩
+  · intro q hq
+    rw [(hall q hq).1.1]
+  · intro k hk
+    obtain ⟨v, hv⟩ := (mem_keys_iff _ k).1 hk
+    obtain ⟨⟨_, hat⟩, hin⟩ := hall (k, v) hv
+    simp only at hat hin
+    refine ⟨by rw [hat]; rfl, by rw [hat]; rfl, hin, ?_⟩
+    rw [hat]
+    exact hwc
+  · intro q hq
+    exact (hall q hq).1.1
+  · intro k hk
+    obtain ⟨v, hv⟩ := (mem_keys_iff _ k).1 hk
+    exact (hall (k, v) hv).1.2
+
+theorem cleanB_sound {ordf : List World → List World} (w : World) (s : Name → Bool) (ev : Event)
+    (h : cleanB ordf G w s ev = true) : Clean2 ordf G w s ev := by
+  intro g nev hcg hconn
+  unfold cleanB at h
+  rw [hcg] at h
+  simp only at h
+  rw [hconn] at h
+  simp only [Bool.and_eq_true, List.all_eq_true, Bool.or_eq_true, Bool.not_eq_eq_eq_not, Bool.not_true, decide_eq_true_eq] at h
+  obtain ⟨h1, h2⟩ := h
+  constructor
+  · intro k hk hs n hn
+    obtain ⟨v, hv⟩ := (mem_keys_iff nev k).1 hk
+    rcases h1 (k, v) hv with h' | h'
+    · simp only at h'
+      rw [hs] at h'
+      cases h'
+    · exact h' n hn
+  · intro n hn hnsi i hi hin
+    rcases h2 n hn with h' | h'
+    · rw [hnsi] at h'
+      cases h'
+    · exact h' i hi hin
+
+/-- fragment 2 is decidable: the executable test `inFragment2B` (Y0/Model/IdStar.lean; what the harness asks the driver) -/
+theorem inFragment2B_sound {ordf : List World → List World} (ev : Event) (h : inFragment2B ordf G ev = true) :
+    InFragment2 ordf G ev := by
+  have h1 : oneWorldB G ev = true := by
+    unfold inFragment2B at h
+    unfold oneWorldB
+    simp only [Bool.and_eq_true] at h ⊢
+    exact h.1
+  refine ⟨oneWorldB_sound G ev h1, ?_⟩
+  unfold inFragment2B at h
+  simp only [Bool.and_eq_true, Bool.or_eq_true] at h
+  rcases h.2 with h2 | h2
+  · exact Or.inl h2
+  · exact Or.inr (cleanB_sound G _ _ _ h2)
+
+/-- fragment 1 is contained in fragment 2 -/
+theorem inFragment_subset {ordf : List World → List World} (ev : Event) (hne : ev ≠ []) (h : InFragment G ev) :
+    InFragment2 ordf G ev := by
+  obtain ⟨w, hw⟩ := h
+  have hww : worldB ev = w := by
+    cases ev with
+    | nil => exact absurd rfl hne
+    | cons p ps =>
+      have hk : p.1 ∈ Event.keys (p :: ps) := (mem_keys_iff _ p.1).2 ⟨p.2, by simp⟩
+      show p.1.ivs = w
+      rw [hw.keysIn p.1 hk]
+      rfl
+  have hs : ∀ n, starOf ev n = false := by
+    intro n
+    unfold starOf
+    rw [List.any_eq_false]
+    intro p hp
+    rw [hw.unst p hp]
+    simp
+  refine ⟨⟨hw.good, valBy_starOf hw.good.ok hw.keysIn, by rw [hww]; exact hw.keysIn⟩, Or.inr ?_⟩
+  intro g nev _ _
+  constructor
+  · intro k _ hsk
+    rw [hs k.name] at hsk
+    cases hsk
+  · intro n _ _ i hi _
+    rw [hww] at hi
+    exact hw.wUnst i hi
+
+/-! ### fragment 2R: events that lines 2–3 reduce to fragment 2 -/
+
+/-- **Fragment 2R**: a well-formed event (ANY number of worlds) that violates effectiveness (line 2), or all of whose conjuncts are
+tautologies (line 3, then line 1), or that line 3 reduces to an event of fragment 2.  Decidable: `inFragment2RB`. -/
+def InFragment2R (ordf : List World → List World) (G : MG Name) (ev : Event) : Prop :=
+  GoodEv G ev ∧ (violatesEffectiveness ev = true ∨ removeTautologies ev = [] ∨ InFragment2 ordf G (removeTautologies ev))
+
+theorem goodEvB_sound (ev : Event) (h : goodEvB G ev = true) : GoodEv G ev := by
+  unfold goodEvB at h
+  simp only [Bool.and_eq_true, decide_eq_true_eq, List.all_eq_true, Bool.not_eq_eq_eq_not, Bool.not_true] at h
+  obtain ⟨hnd, hall⟩ := h
+  refine ⟨⟨hnd, fun q hq => (hall q hq).1.1.1.1⟩, ?_⟩
+  intro k hk
+  obtain ⟨v, hv⟩ := (mem_keys_iff _ k).1 hk
+  obtain ⟨⟨⟨⟨_, hs⟩, hiv⟩, hin⟩, hc⟩ := hall (k, v) hv
+  exact ⟨hs, hiv, hin, consistentB_sound _ hc⟩
+
+theorem inFragment2RB_sound {ordf : List World → List World} (ev : Event) (h : inFragment2RB ordf G ev = true) :
+    InFragment2R ordf G ev := by
+  unfold inFragment2RB at h
+  simp only [Bool.and_eq_true, Bool.or_eq_true, List.isEmpty_iff] at h
+  refine ⟨goodEvB_sound G ev h.1, ?_⟩
+  rcases h.2 with (h2 | h2) | h2
+  · exact Or.inl h2
+  · exact Or.inr (Or.inl h2)
+  · exact Or.inr (Or.inr (inFragment2B_sound G _ h2))
+
+/-- past lines 1–3 an event without tautologies goes straight to lines 4–9 -/
+theorem idStarFuel_reduced (ev : Event) (hviol : violatesEffectiveness ev = false) (hok : EvOK ev)
+    (hne : removeTautologies ev ≠ []) (f : Nat) :
+    idStarFuel ordf dordf G (f + 1) (removeTautologies ev) =
+      idStarLines4to9 ordf dordf G (idStarFuel ordf dordf G f) (removeTautologies ev) := by
+  have hemp : (removeTautologies ev).isEmpty = false := by
+    cases h : removeTautologies ev with
+    | nil => exact absurd h hne
+    | cons _ _ => rfl
+  simp only [idStarFuel]
+  unfold idStarBody
+  rw [hemp, violates_removeTautologies ev hviol, removeTautologies_idem, eqv_self _ (evOK_removeTautologies ev hok).nodup]
+  simp
+
+/-- **ID\* is sound on fragment 2R, under the reading of the property** (`cden2`), the outcome variables taking the values the
+event WITHOUT ITS TAUTOLOGIES gives them -/
+theorem idstar_sound_fragment2R (M : Model) (ν : BaseValues) (hν : ν.Distinct) (dom : Name → Nat) (hM : Compatible M G)
+    (hnorm : M.Normalised) (hdom : ∀ v ps us, M.f v ps us < dom v) (hG : G.WF) (hdl : ∀ e ∈ G.di, e.1 ≠ e.2)
+    (hbl : ∀ e ∈ G.bi, e.1 ≠ e.2) {ordf : List World → List World} (hord : PermOrder ordf) {dordf : List Var → List Var}
+    (hdo : PermDistrict dordf) (ev : Event) (hne : ev ≠ []) (hfr : InFragment2R ordf G ev) (e : Expr)
+    (h : idStar ordf dordf G ev = .ok e) :
+    cden2 M ν dom e (evVal ν (starOf (removeTautologies ev)) (worldB (removeTautologies ev))) (fun n => ν n false) =
+      probEvent M ν ev := by
+  obtain ⟨hev, hcases⟩ := hfr
+  have hwf : EventWF M ev := ⟨hev.ok.names,
+    fun p hp => (hM.perm.mem_iff).2 (hev.keys p.1 ((mem_keys_iff ev p.1).2 ⟨p.2, hp⟩)).inG,
+    fun p hp => (hev.keys p.1 ((mem_keys_iff ev p.1).2 ⟨p.2, hp⟩)).subs⟩
+  obtain ⟨b, hb⟩ := idStarFuelBound_ge G ev
+  unfold idStar at h
+  rw [hb] at h
+  cases hviol : violatesEffectiveness ev with
+  | true =>
+    rw [idstar_line2 ordf dordf G (b + 1) ev hne hviol] at h
+    simp only [Except.ok.injEq] at h
+    subst h
+    rw [idstar_line2_sound M ν hν ev hwf hviol]
+    simp [cden2]
+  | false =>
+    rcases idStarFuel_top_shape2 ordf dordf G ev hviol hev.ok hne b with ⟨h0, h1⟩ | ⟨f, hne', hrun⟩
+    · rw [h1] at h
+      simp only [Except.ok.injEq] at h
+      subst h
+      rw [← idstar_line3_sound M ν ev hwf, h0]
+      simp only [cden2, probEvent, List.map_nil]
+      exact (prob_nil M (fun pmf hp => (hnorm pmf hp).2)).symm
+    · rcases hcases with hc | hc | hc
+      · rw [hc] at hviol; cases hviol
+      · exact absurd hc hne'
+      · rw [hrun, ← idStarFuel_reduced ordf dordf G ev hviol hev.ok hne' f] at h
+        obtain ⟨hone, hcl⟩ := hc
+        have hviol' := violates_removeTautologies ev hviol
+        rw [← idstar_line3_sound M ν ev hwf]
+        rcases hcl with hcl | hcl
+        · rw [hcl] at hviol'; cases hviol'
+        · exact idStarFuel_sound_lit M ν dom hM (fun pmf hp => (hnorm pmf hp).2) hdom hG hdl hbl hord hdo _ _ _ hne' hone
+            (sKeys_starOf _) hviol' hcl _ e h
+
+/-! ### fragment 3: events that are still multi-world after line 3 -/
+
+/-- **Fragment 3** `InFragment3 ordf G ev`: a well-formed event (any number of worlds) that does not violate effectiveness, keeps a
+conjunct after line 3, and whose counterfactual graph `g` (built by line 4 from the event without its tautologies) satisfies
+`Frag3At` (Lemmas/CfMwC.lean): (a) at most one non-self-intervened node per variable; (b) no non-self-intervened node named like a
+subscript of a node of `g`; (c) the subscripts of the nodes of `g` are mutually consistent; (d) bidirected edges of `G` between
+non-self-intervened nodes are edges of `g`; (e) if line 9 answers, the subscript by which a self-intervened node is intervened is a
+subscript of a non-self-intervened node; if line 6 answers, no starred-valued key is a parent of a non-self-intervened node and no node
+is self-intervened on a starred subscript.  Decidable: `inFragment3B`.  (a), (b) exclude F10/M3a, M3b, M5, D1, D2; (e) excludes F10/M1, M2.
+Measured (tools/c07_boundary.py): no event inside fragment 3 is answered wrongly; of the events that are still multi-world after
+line 3, get an estimand and are outside it, 88% are answered wrongly. -/
+def InFragment3 (ordf : List World → List World) (G : MG Name) (ev : Event) : Prop :=
+  GoodEv G ev ∧ violatesEffectiveness ev = false ∧ removeTautologies ev ≠ [] ∧
+    ∃ g nev, makeCounterfactualGraph ordf G (removeTautologies ev) = .ok (g, some nev) ∧ Frag3At G g nev
+
+theorem frag3AtB_sound (g : MG Var) (nev : Event) (h : frag3AtB G g nev = true) : Frag3At G g nev := by
+  unfold frag3AtB at h
+  simp only [Bool.and_eq_true, List.all_eq_true, decide_eq_true_eq, Bool.or_eq_true, Bool.not_eq_eq_eq_not, Bool.not_true,
+    ne_eq] at h
+  obtain ⟨⟨⟨⟨hinj, hsep⟩, hcons⟩, hbi⟩, hroute⟩ := h
+  refine ⟨hinj, hsep, consistentB_sound _ hcons, ?_, ?_, ?_⟩
+  · intro a ha b hb hna hnb hab hbiG
+    rcases hbi a ha b hb with (((h' | h') | h') | h') | h'
+    · rw [hna] at h'; cases h'
+    · rw [hnb] at h'; cases h'
+    · exact absurd h' hab
+    · exfalso
+      rcases hbiG with h1 | h1
+      · simp [h1] at h'
+      · simp [h1] at h'
+    · unfold MG.hasBi at h'
+      simp only [Bool.or_eq_true, decide_eq_true_eq] at h'
+      exact h'
+  · intro hc x hx hxn i hi hin
+    rw [hc] at hroute
+    simp only [List.all_eq_true, Bool.or_eq_true, decide_eq_true_eq] at hroute
+    rcases hroute x hx with h' | h'
+    · rw [hxn] at h'; cases h'
+    · rcases h' i hi with h'' | h''
+      · exact absurd hin h''
+      · exact (elem'_iff _ _).1 h''
+  · intro hc
+    rw [hc] at hroute
+    simp only [Bool.and_eq_true, List.all_eq_true, Bool.or_eq_true, Bool.not_eq_eq_eq_not, Bool.not_true,
+      decide_eq_true_eq] at hroute
+    obtain ⟨h1, h2⟩ := hroute
+    constructor
+    · intro k hk hs n hn
+      obtain ⟨v, hv⟩ := (mem_keys_iff nev k).1 hk
+      rcases h1 (k, v) hv with h' | h'
+      · simp only at h'
+        rw [hs] at h'
+        cases h'
+      · exact h' n hn
+    · intro x hx hxn i hi hin
+      rcases h2 x hx with h' | h'
+      · rw [hxn] at h'; cases h'
+      · rcases h' i hi with h'' | h''
+        · exact absurd hin h''
+        · exact h''
+
+theorem inFragment3B_sound {ordf : List World → List World} (ev : Event) (h : inFragment3B ordf G ev = true) :
+    InFragment3 ordf G ev := by
+  unfold inFragment3B at h
+  simp only [Bool.and_eq_true, Bool.not_eq_eq_eq_not, Bool.not_true, List.isEmpty_eq_false_iff] at h
+  obtain ⟨⟨⟨hgood, hviol⟩, hne⟩, hm⟩ := h
+  refine ⟨goodEvB_sound G ev hgood, hviol, hne, ?_⟩
+  cases hcg : makeCounterfactualGraph ordf G (removeTautologies ev) with
+  | error err => rw [hcg] at hm; cases hm
+  | ok v =>
+    rcases v with ⟨g, o⟩
+    rw [hcg] at hm
+    cases o with
+    | none => cases hm
+    | some nev => exact ⟨g, nev, rfl, frag3AtB_sound G g nev hm⟩
+
+/-- **ID\* is sound on fragment 3, under the reading of the property** (`cden2`; the outcome variables take the values `sigma0` of
+the relabelled event: the event's values, `x'` for a variable with a starred subscript) -/
+theorem idstar_sound_fragment3 (M : Model) (ν : BaseValues) (hν : ν.Distinct) (dom : Name → Nat) (hM : Compatible M G)
+    (hnorm : M.Normalised) (hdom : ∀ v ps us, M.f v ps us < dom v) (hG : G.WF) (hdl : ∀ e ∈ G.di, e.1 ≠ e.2)
+    (hbl : ∀ e ∈ G.bi, e.1 ≠ e.2) {ordf : List World → List World} (hord : PermOrder ordf) {dordf : List Var → List Var}
+    (hdo : PermDistrict dordf) (ev : Event) (hfr : InFragment3 ordf G ev) (e : Expr)
+    (h : idStar ordf dordf G ev = .ok e) :
+    ∃ g nev, makeCounterfactualGraph ordf G (removeTautologies ev) = .ok (g, some nev) ∧
+      cden2 M ν dom e (sigma0 ν g nev) (fun n => ν n false) = probEvent M ν ev := by
+  obtain ⟨hev, hviol, hne', g, nev, hcg, h3⟩ := hfr
+  refine ⟨g, nev, hcg, ?_⟩
+  have hwf : EventWF M ev := ⟨hev.ok.names,
+    fun p hp => (hM.perm.mem_iff).2 (hev.keys p.1 ((mem_keys_iff ev p.1).2 ⟨p.2, hp⟩)).inG,
+    fun p hp => (hev.keys p.1 ((mem_keys_iff ev p.1).2 ⟨p.2, hp⟩)).subs⟩
+  have hne : ev ≠ [] := by
+    intro h0
+    rw [h0] at hne'
+    exact hne' rfl
+  obtain ⟨b, hb⟩ := idStarFuelBound_ge G ev
+  unfold idStar at h
+  rw [hb] at h
+  rcases idStarFuel_top_shape2 ordf dordf G ev hviol hev.ok hne b with ⟨h0, _⟩ | ⟨f, _, hrun⟩
+  · exact absurd h0 hne'
+  · rw [hrun] at h
+    have hk' : KeysNSI (removeTautologies ev) := keysNSI_of_lines123 _ hne' (violates_removeTautologies ev hviol)
+      (by rw [removeTautologies_idem]; exact eqv_self _ (evOK_removeTautologies ev hev.ok).nodup)
+      (evOK_removeTautologies ev hev.ok)
+    rw [← idstar_line3_sound M ν ev hwf]
+    exact lines4to9_sound_mw_lit M ν dom hM (fun pmf hp => (hnorm pmf hp).2) hν hdom hG hdl hbl hord hdo _
+      (goodEv_removeTautologies hev) hk' f e h g nev hcg h3
+
+/-! ### Zero -/
+
+/-- **on a single-world event Zero comes from line 2 and from nowhere else**: ID* returns Zero iff the event violates the axiom
+of effectiveness -/
+theorem idstar_zero_iff_line2_oneworld (hG : G.WF) (hdl : ∀ e ∈ G.di, e.1 ≠ e.2) (hbl : ∀ e ∈ G.bi, e.1 ≠ e.2)
+    {ordf : List World → List World} (hord : PermOrder ordf) {dordf : List Var → List Var} (hdo : PermDistrict dordf)
+    (ev : Event) (hfr : OneWorld G ev) :
+    idStar ordf dordf G ev = .ok .zero ↔ violatesEffectiveness ev = true := by
+  constructor
+  · intro h
+    cases hviol : violatesEffectiveness ev with
+    | true => rfl
+    | false => exact absurd h (idStarFuel_ne_zero_sw hG hdl hbl hord hdo _ _ _ ev hfr hviol)
+  · intro hviol
+    obtain ⟨b, hb⟩ := idStarFuelBound_ge G ev
+    have hne : ev ≠ [] := by intro h0; rw [h0] at hviol; cases hviol
+    unfold idStar
+    rw [hb]
+    exact idstar_line2 ordf dordf G (b + 1) ev hne hviol
+
+/-- **`idstar_zero_sound` on single-world events** (fragments 1 and 2 included): ID* returns Zero only for events of probability
+zero in every functional SCM (whatever graph it is compatible with) -/
+theorem idstar_zero_sound_oneworld (M : Model) (ν : BaseValues) (hν : ν.Distinct) (hM : Compatible M G) (hG : G.WF)
+    (hdl : ∀ e ∈ G.di, e.1 ≠ e.2) (hbl : ∀ e ∈ G.bi, e.1 ≠ e.2) {ordf : List World → List World} (hord : PermOrder ordf)
+    {dordf : List Var → List Var} (hdo : PermDistrict dordf) (ev : Event) (hfr : OneWorld G ev)
+    (h : idStar ordf dordf G ev = .ok .zero) : probEvent M ν ev = 0 :=
+  idstar_line2_sound M ν hν ev (frag2_eventWF M hM hfr) ((idstar_zero_iff_line2_oneworld G hG hdl hbl hord hdo ev hfr).1 h)
+
+/-- inside fragment 1 ID* never returns Zero at all (and by `idstar_answers_fragment` it never refuses): it always returns an
+estimand or One -/
+theorem idstar_never_zero_fragment (hG : G.WF) (hdl : ∀ e ∈ G.di, e.1 ≠ e.2) (hbl : ∀ e ∈ G.bi, e.1 ≠ e.2)
+    {ordf : List World → List World} (hord : PermOrder ordf) {dordf : List Var → List Var} (hdo : PermDistrict dordf)
+    (ev : Event) (hfr : InFragment G ev) : idStar ordf dordf G ev ≠ .ok .zero := by
+  obtain ⟨w, hw⟩ := hfr
+  exact idStarFuel_ne_zero_sw hG hdl hbl hord hdo _ w _ ev hw.to2 (frag_no_violation hw)
+
+/-- **where Zero comes from, for EVERY well-formed event** (any number of worlds): from line 2 (possibly after line 3), from line 5,
+or from line 6 with a district event that violates the axiom of effectiveness — i.e. from line 2 of a recursive call, at depth
+one.  The first two are sound (`idstar_zero_line2_sound_partial`, `idstar_zero_line5_sound`); the third is where the open
+findings of kind 'zero' live (the district event `V_{…v…} = v'` is made of two different copies of `V`). -/
+theorem idstar_zero_origin (hG : G.WF) (hdl : ∀ e ∈ G.di, e.1 ≠ e.2) (hbl : ∀ e ∈ G.bi, e.1 ≠ e.2)
+    {ordf : List World → List World} (hord : PermOrder ordf) {dordf : List Var → List Var} (hdo : PermDistrict dordf)
+    (ev : Event) (hev : GoodEv G ev) (h : idStar ordf dordf G ev = .ok .zero) :
+    violatesEffectiveness ev = true ∨
+    (∃ g, makeCounterfactualGraph ordf G (removeTautologies ev) = .ok (g, none)) ∨
+    (∃ g nev evs x, makeCounterfactualGraph ordf G (removeTautologies ev) = .ok (g, some nev) ∧
+      isConnected (nsiSubgraph g) = .ok false ∧ eventsOfEachDistrict dordf g nev = .ok evs ∧ x ∈ evs ∧
+      violatesEffectiveness x = true) := by
+  cases hviol : violatesEffectiveness ev with
+  | true => exact Or.inl rfl
+  | false =>
+    right
+    have hne : ev ≠ [] := by
+      intro h0
+      subst h0
+      simp [idStar, idStarFuelBound, idStarFuel, idStarBody] at h
+    obtain ⟨b, hb⟩ := idStarFuelBound_ge G ev
+    unfold idStar at h
+    rw [hb] at h
+    rcases idStarFuel_top_shape2 ordf dordf G ev hviol hev.ok hne b with ⟨_, h1⟩ | ⟨f, hne', hrun⟩
+    · rw [h1] at h; cases h
+    · rw [hrun] at h
+      have hk' : KeysNSI (removeTautologies ev) := keysNSI_of_lines123 _ hne' (violates_removeTautologies ev hviol)
+        (by rw [removeTautologies_idem]; exact eqv_self _ (evOK_removeTautologies ev hev.ok).nodup)
+        (evOK_removeTautologies ev hev.ok)
+      exact lines4to9_zero_origin hG hdl hbl hord hdo _ (goodEv_removeTautologies hev) hk' f h
+
+/-- **Zero is sound unless it comes from line 2 of a recursive call**: for every well-formed event, if ID* returns Zero then the
+event has probability 0 in every compatible functional SCM, OR line 6 fired at the top and one of the district events violates
+the axiom of effectiveness (the open findings of kind 'zero') -/
+theorem idstar_zero_sound_partial (M : Model) (ν : BaseValues) (hν : ν.Distinct) (hM : Compatible M G) (hG : G.WF)
+    (hdl : ∀ e ∈ G.di, e.1 ≠ e.2) (hbl : ∀ e ∈ G.bi, e.1 ≠ e.2) {ordf : List World → List World} (hord : PermOrder ordf)
+    {dordf : List Var → List Var} (hdo : PermDistrict dordf) (ev : Event) (hev : GoodEv G ev)
+    (h : idStar ordf dordf G ev = .ok .zero) :
+    probEvent M ν ev = 0 ∨
+    (∃ g nev evs x, makeCounterfactualGraph ordf G (removeTautologies ev) = .ok (g, some nev) ∧
+      isConnected (nsiSubgraph g) = .ok false ∧ eventsOfEachDistrict dordf g nev = .ok evs ∧ x ∈ evs ∧
+      violatesEffectiveness x = true) := by
+  have hwf : EventWF M ev := ⟨hev.ok.names,
+    fun p hp => (hM.perm.mem_iff).2 (hev.keys p.1 ((mem_keys_iff ev p.1).2 ⟨p.2, hp⟩)).inG,
+    fun p hp => (hev.keys p.1 ((mem_keys_iff ev p.1).2 ⟨p.2, hp⟩)).subs⟩
+  rcases idstar_zero_origin G hG hdl hbl hord hdo ev hev h with h2 | ⟨g, h5⟩ | h6
+  · exact Or.inl (idstar_line2_sound M ν hν ev hwf h2)
+  · left
+    rw [← idstar_line3_sound M ν ev hwf]
+    have hev' := goodEv_removeTautologies hev
+    have hgood := hord.good (removeTautologies ev).keys
+    refine idstar_zero_line5_sound _ G M ν hν hM hG hdl hbl _ hev'.ok hgood.1 hgood.2 ?_ g h5
+    intro w hw
+    obtain ⟨k, hkk, _, rfl⟩ := (mem_extractInterventions _ w).1 ((hord _).mem_iff.1 hw)
+    exact (hev'.keys k hkk).subs
+  · exact Or.inr h6
+
+/-! ### refusals -/
+
+/-- **`idstar_refusal_iff_conflict`**: for every well-formed event on an acyclic graph, ID* refuses ('unidentifiable') exactly when,
+after lines 1–3, the counterfactual graph of the event (without its tautologies) is connected and line 8's conflict test fires: a
+subscript of a node of the graph and a value or subscript of the relabelled event give one variable different polarities.  The
+recursive calls of line 6 never refuse (they are calls on single-world events). -/
+theorem idstar_refusal_iff_conflict (hG : G.WF) (hA : G.Acyclic) (hdl : ∀ e ∈ G.di, e.1 ≠ e.2) (hbl : ∀ e ∈ G.bi, e.1 ≠ e.2)
+    {ordf : List World → List World} (hord : PermOrder ordf) {dordf : List Var → List Var} (hdo : PermDistrict dordf)
+    (ev : Event) (hev : GoodEv G ev) :
+    idStar ordf dordf G ev = .error .unidentifiable ↔
+      violatesEffectiveness ev = false ∧ removeTautologies ev ≠ [] ∧
+        ∃ g nev, makeCounterfactualGraph ordf G (removeTautologies ev) = .ok (g, some nev) ∧
+          isConnected (nsiSubgraph g) = .ok true ∧ conflicts (nsiSubgraph g) nev ≠ [] := by
+  obtain ⟨b, hb⟩ := idStarFuelBound_ge G ev
+  cases hviol : violatesEffectiveness ev with
+  | true =>
+    have hne : ev ≠ [] := by intro h0; rw [h0] at hviol; cases hviol
+    unfold idStar
+    rw [hb, idstar_line2 ordf dordf G (b + 1) ev hne hviol]
+    constructor
+    · intro h; cases h
+    · rintro ⟨h, _⟩; cases h
+  | false =>
+    by_cases hne : ev = []
+    · subst hne
+      constructor
+      · intro h; simp [idStar, idStarFuelBound, idStarFuel, idStarBody] at h
+      · rintro ⟨_, h, _⟩; exact absurd rfl h
+    · unfold idStar
+      rw [hb]
+      rcases idStarFuel_top_shape2 ordf dordf G ev hviol hev.ok hne b with ⟨h0, h1⟩ | ⟨f, hne', hrun⟩
+      · rw [h1]
+        constructor
+        · intro h; cases h
+        · rintro ⟨_, h, _⟩; exact absurd h0 h
+      · rw [hrun]
+        have hk' : KeysNSI (removeTautologies ev) := keysNSI_of_lines123 _ hne' (violates_removeTautologies ev hviol)
+          (by rw [removeTautologies_idem]; exact eqv_self _ (evOK_removeTautologies ev hev.ok).nodup)
+          (evOK_removeTautologies ev hev.ok)
+        rw [lines4to9_unid_iff hG hA hdl hbl hord hdo _ (goodEv_removeTautologies hev) hk' f]
+        constructor
+        · intro h; exact ⟨rfl, hne', h⟩
+        · rintro ⟨_, _, h⟩; exact h
+
+/-- **`idstar_refuses_sound`**: whenever ID* refuses, the refusal was raised by line 8's conflict test of the top-level call (after
+lines 1–3) — never by a recursive call, never by anything else -/
+theorem idstar_refuses_sound (hG : G.WF) (hA : G.Acyclic) (hdl : ∀ e ∈ G.di, e.1 ≠ e.2) (hbl : ∀ e ∈ G.bi, e.1 ≠ e.2)
+    {ordf : List World → List World} (hord : PermOrder ordf) {dordf : List Var → List Var} (hdo : PermDistrict dordf)
+    (ev : Event) (hev : GoodEv G ev) (h : idStar ordf dordf G ev = .error .unidentifiable) :
+    ∃ g nev, makeCounterfactualGraph ordf G (removeTautologies ev) = .ok (g, some nev) ∧
+      isConnected (nsiSubgraph g) = .ok true ∧ conflicts (nsiSubgraph g) nev ≠ [] :=
+  ((idstar_refusal_iff_conflict G hG hA hdl hbl hord hdo ev hev).1 h).2.2
+
 /-! ## 4. non-vacuity: concrete runs of the model (kernel-evaluated) -/
 
 namespace Example07
@@ -394,6 +955,24 @@ example : inFragmentB gBA [(A_b, ⟨0, false⟩)] = true := by decide
 example : inFragmentB gBA [(A, ⟨0, false⟩), (B, ⟨1, false⟩)] = true := by decide
 /-- … and the F10 witness is outside it (a starred value) -/
 example : inFragmentB gBA [(B, ⟨1, true⟩), (A, ⟨0, false⟩)] = false := by decide
+
+/-- fragment 2 is strictly larger: `P(A_{b'} = a')` (starred subscript and value, line 9 answers) and `A = a' ∧ B = b` on `B → A`
+(line 6 fires; the starred-valued key `A` has no child) are inside it, not inside fragment 1 -/
+example : inFragment2B sortWorlds gBA [({ name := 0, ivs := [⟨1, true⟩] }, ⟨0, true⟩)] = true := by decide
+example : inFragmentB gBA [({ name := 0, ivs := [⟨1, true⟩] }, ⟨0, true⟩)] = false := by decide
+example : inFragment2B sortWorlds gBA [(A, ⟨0, true⟩), (B, ⟨1, false⟩)] = true := by decide
+/-- … and the F10/M1 witness `B = b' ∧ A = a` is outside it (the starred-valued key `B` is a parent of `A`, two districts),
+so is the F10/M2 witness `B = b ∧ A_{b'} = a` … -/
+example : inFragment2B sortWorlds gBA [(B, ⟨1, true⟩), (A, ⟨0, false⟩)] = false := by decide
+/-- the hypothesis `InFragment2` of `idstar_sound_fragment2` is satisfiable by an event outside fragment 1 (with `PermOrder sortWorlds`:
+`permOrder_sortWorlds`) -/
+example : InFragment2 sortWorlds gBA [(A, ⟨0, true⟩), (B, ⟨1, false⟩)] := inFragment2B_sound gBA _ (by decide)
+/-- fragment 3 is not empty: the two-world event `B = b ∧ A_{c} = a` on `B → A ← C` (worlds `{}` and `{c}`; `C` is
+not an ancestor of `B`) is still multi-world after line 3 and satisfies `Frag3At` -/
+example : inFragment3B sortWorlds (MG.fromEdges [0, 1, 2] [(1, 0), (2, 0)] [])
+    [(B, ⟨1, false⟩), ({ name := 0, ivs := [⟨2, false⟩] }, ⟨0, false⟩)] = true := by decide
+/-- … `B_b = b'` is inside (line 2 answers Zero, soundly) -/
+example : inFragment2B sortWorlds gBA [({ name := 1, ivs := [⟨1, false⟩] }, ⟨1, true⟩)] = true := by decide
 
 /-- the semantic hypotheses of `idstar_sound_fragment` are satisfiable: a functional SCM compatible with `B → A` with normalised
 noise and mechanisms bounded by `dom = 2` -/
